@@ -178,6 +178,7 @@ type c09Ctx struct {
 	viol    string
 	cls     string
 	calls   int
+	reent   *b7Reent // class reentrant: the function `reent` evaluates the parsed function being called again
 }
 
 func (c *c09Ctx) fail(cls, format string, args ...interface{}) {
@@ -230,6 +231,10 @@ func (c *c09Ctx) outcome(text string) Outcome {
 		return Outcome{ErrKind: "syntax"}
 	}
 	c.calls++
+	if c.reent != nil {
+		c.reent.F, c.reent.Budget = f, 200
+		defer func() { c.reent.F = nil }()
+	}
 	return SafeCall(f, c.doc)
 }
 
@@ -850,6 +855,9 @@ func c09LeafTags(q *Query, tags c09Tagger) {
 
 func (c09) Exec(seed int64, i int, tier string) Record {
 	r := CaseRng(seed, "C09", i)
+	if i%10 == 7 && (tier != "thorough" || i >= c09ExCount()) {
+		return c09ReentCase(r)
+	}
 	if tier == "thorough" {
 		if i < c09ExCount() {
 			return c09Exhaustive(i, r)
@@ -1571,6 +1579,110 @@ func c09DeepCase(r *Rng) Record {
 	}
 	if exercised {
 		rec.Key = fmt.Sprintf("deep/%s/%s %s/w%d/%v%d/%s", OpNames[q.Op], c10OperandKey(q.L), c10OperandKey(q.R), wrapKind, isObj, n, cls)
+	}
+	for t := range tags {
+		rec.Tags = append(rec.Tags, t)
+	}
+	sort.Strings(rec.Tags)
+	return rec
+}
+
+// ---------- class reentrant: operands call a function that evaluates the same parsed filter again ----------
+//
+// One case in ten. A random-block case whose `@`- and `$`-operand paths carry the user filter function
+// `reent` (b7Reent): every call evaluates the parsed function that is being evaluated once more, on
+// another document of the same shape (other field values, sometimes another member order; a second
+// level in 30% of the cases), and returns its argument. All the laws must hold as they do without the
+// function, and the whole expression is put to jpv-spec with `id` in place of `reent`.
+func c09ReentCase(r *Rng) Record {
+	d := c09GenDoc(r)
+	for try := 0; try < 3 && d.n < 2; try++ {
+		d = c09GenDoc(r)
+	}
+	depth := r.Weighted([]int{35, 40, 25})
+	jn := r.Chance(30)
+	var doc interface{} = d.doc
+	re := &b7Reent{}
+	levels := 1 + r.Weighted([]int{70, 30})
+	var altTexts []string
+	for l := 0; l < levels; l++ {
+		var alt interface{} = b7AltDoc(r, d.doc, []int{40, 70, 100}[r.Intn(3)])
+		if jn {
+			alt = ToJnum(alt)
+		}
+		re.Docs = append(re.Docs, alt)
+		altTexts = append(altTexts, JSONText(alt))
+	}
+	if jn {
+		doc = ToJnum(d.doc)
+	}
+	cfg := Config(false, nil)
+	b7WithReent(&cfg, re)
+	ctx := &c09Ctx{cfg: &cfg, parsed: map[string]Parsed{}, reent: re}
+	ctx.setDoc(doc.(map[string]interface{}))
+	q := c09Expr(r, d, depth, ctx)
+	nc, nr := 0, 0
+	for try := 0; try < 4 && nc+nr == 0; try++ {
+		nc, nr, _ = b7InjectReent(r, c09FilterPath(q), 75)
+	}
+	if nc+nr == 0 {
+		// no operand path to carry the function (literals, regex tests, value-group existence tests only)
+		l := c09Cmp(r.Weighted([]int{40, 20, 10, 10, 10, 10}), c09P(c09Cur(c09Child("a"))), c09Num(c09Nums[r.Intn(len(c09Nums))]))
+		l.L.Path.Fns = []Fn{{Name: b7ReentName}}
+		q = &Query{Kind: QAnd, A: q, B: l}
+		if r.Chance(50) {
+			q.Kind = QOr
+		}
+		nc = 1
+	}
+	rec := Record{Text: c09Text(q), Doc: JSONText(doc), Info: map[string]interface{}{"inner_documents": altTexts,
+		"reentrant": "the filter function `reent` evaluates the same parsed function on inner_documents[depth] and returns its argument (jpv-spec is asked with `id`)"}}
+	if ctx.viol != "" {
+		rec.Viol, rec.Class = ctx.viol, ctx.cls
+		return rec
+	}
+	ctx.memo = map[string]c09Sel{}
+	tags := c09Tagger{"mode:reentrant": true, fmt.Sprintf("reentrant:levels-%d", levels): true}
+	if nc > 0 {
+		tags["reentrant:in-@-operand"] = true
+	}
+	if nr > 0 {
+		tags["reentrant:in-$-operand"] = true
+	}
+	got := ctx.treeLaws(q, tags, true)
+	c09LeafTags(q, tags)
+	tags[fmt.Sprintf("members:%d", d.n)] = true
+	if jn {
+		tags["decode:jnum"] = true
+	}
+	if re.Inner > 0 {
+		tags["reentrant:inner-evaluation-ran"] = true
+	}
+	cnt := 0
+	for _, x := range got {
+		if x {
+			cnt++
+		}
+	}
+	cls := "some"
+	if cnt == 0 {
+		cls = "none"
+	} else if cnt == d.n {
+		cls = "all"
+	}
+	tags["selects:"+cls] = true
+	rec.Info["selected"] = got.String()
+	rec.Viol, rec.Class = ctx.viol, ctx.cls
+	if re.Panic != "" && rec.Viol == "" {
+		rec.Viol, rec.Class = "an inner evaluation of the same parsed function panicked: "+clip(re.Panic, 600), "abnormal"
+	}
+	if ctx.viol == "" || ctx.cls == "law" {
+		lq := c09SpecQ(q, doc, ctx.outcome(c09Text(q)))
+		lq.Line = b7AsID(lq.Line)
+		rec.Q = []LeanQ{lq}
+	}
+	if d.n > 0 && re.Inner > 0 {
+		rec.Key = fmt.Sprintf("reent/%s/%d/%s", queryShape(q), d.n, cls)
 	}
 	for t := range tags {
 		rec.Tags = append(rec.Tags, t)
